@@ -294,7 +294,7 @@ def check_eval(sp, st):
                 res.append((["C11"], "shape", "%s: result shape %s, input shape %s" % (summary(e), np.shape(x), shape)))
                 continue
             scale = max(1.0, float(np.abs(exp).max()))
-            if not np.allclose(np.asarray(x).ravel(), exp, atol=1e-11 * scale, rtol=0):
+            if not core.allclose(np.asarray(x).ravel(), exp, atol=1e-11 * scale, rtol=0):
                 res.append((["C11"], "value", "%s alpha=%s y=%s shape %s: got %s, minimiser %s" % (summary(e), al, [str(cval(c)) for c in y], shape, np.asarray(x).ravel()[:6], exp[:6])))
             # the same point in another memory layout (Fortran order, strided view): same minimiser, input untouched
             variants_ = list(core.layouts(yv))
@@ -312,7 +312,7 @@ def check_eval(sp, st):
                         continue      # (L2Reg rejects integer arrays loudly on the unchanged tree: a rejection is tolerated, a wrong value is not)
                     res.append((["C11"], "exception", "%s shape %s %s input: P(alpha, y) raised %r" % (summary(e), shape, lab, ex)))
                     continue
-                if tuple(np.shape(xl)) != tuple(shape) or not np.allclose(np.asarray(xl).ravel(), exp, atol=1e-11 * scale, rtol=0):
+                if tuple(np.shape(xl)) != tuple(shape) or not core.allclose(np.asarray(xl).ravel(), exp, atol=1e-11 * scale, rtol=0):
                     res.append((["C11"], "value", "%s alpha=%s shape %s: %s input gives a different point than the minimiser" % (summary(e), al, shape, lab)))
                 if not np.array_equal(yl, yl0):
                     res.append((["C02", "C11"], "input_mutated", "%s modified its %s input" % (summary(e), lab)))
@@ -360,7 +360,7 @@ def check_thresh(sp, st):
         if tuple(np.shape(x)) != tuple(shape):
             res.append((["C11"], "thresh_shape", "thresh function for %s: result shape %s for input shape %s" % (k, np.shape(x), shape)))
             continue
-        if not np.allclose(np.asarray(x).ravel(), exp, atol=1e-11 * max(1.0, float(np.abs(exp).max())), rtol=0):
+        if not core.allclose(np.asarray(x).ravel(), exp, atol=1e-11 * max(1.0, float(np.abs(exp).max())), rtol=0):
             res.append((["C11"], "thresh_value", "thresh function for %s(%s) y=%s: got %s expected %s" % (k, [str(fr(q)) for q in e["q"]], [str(cval(c)) for c in y], np.asarray(x).ravel()[:6], exp[:6])))
     return res
 
@@ -392,7 +392,7 @@ def check_groups(sp, st):
                 raise
             res.append((["C11"], "exception", "%s eps=%s raised %r" % (lab, eps, ex)))
             continue
-        if tuple(np.shape(x)) != tuple(want.shape) or not np.allclose(x, want, atol=tol, rtol=0):
+        if tuple(np.shape(x)) != tuple(want.shape) or not core.allclose(x, want, atol=tol, rtol=0):
             res.append((["C11"], "value", "%s eps=%s groups %s: got %s, nearest points %s" % (lab, eps, Y.tolist(), np.asarray(x).ravel()[:6], want.ravel()[:6])))
         if not np.array_equal(arg, a0):
             res.append((["C02", "C11"], "input_mutated", "%s modified its input" % lab))
@@ -439,7 +439,7 @@ def check_psd(sp):
         if not np.array_equal(Y, Y0):
             res.append((["C02", "C11"], "input_mutated", "psd_proj modified its input"))
         for name, W in (("PsdProj", Z), ("psd_proj", Z2)):
-            if np.shape(W) != Y.shape or not np.allclose(W, X, atol=1e-10):
+            if np.shape(W) != Y.shape or not core.allclose(W, X, atol=1e-10):
                 res.append((["C11"], "psd_value", "%s of Q diag%s Q^H (skew part %s, %dx%d %s): max |error| %.3g" % (name, D, skew, Y.shape[0], Y.shape[1], "complex" if np.iscomplexobj(Y) else "real",
                                                                                                                  np.abs(np.asarray(W) - X).max() if np.shape(W) == Y.shape else -1)))
     return res, n
@@ -481,7 +481,7 @@ def check_weighted(sp):
                         res.append((["C11"], "exception", "%s shape %s raised %r" % (name, shape, ex)))
                         break
                     exp = np.array([float(v) for v in closed(al)]).reshape(shape) * ((0.6 + 0.8j) if cplx else 1.0)
-                    if np.shape(x) != tuple(shape) or not np.allclose(x, exp, atol=1e-12):
+                    if np.shape(x) != tuple(shape) or not core.allclose(x, exp, atol=1e-12):
                         res.append((["C11"], "value", "%s shape %s %s alpha=%s (object re-used): got %s, minimiser %s" % (name, shape, "complex" if cplx else "real", al, np.asarray(x).ravel()[:6], exp.ravel()[:6])))
                     if not np.array_equal(yv, y0):
                         res.append((["C02", "C11"], "input_mutated", "%s modified its input" % name))
@@ -523,7 +523,7 @@ def check_mixed_kinds(sp):
                     exp = np.concatenate([np.array([1.75, 0.0]), closed(al)])
             except Exception:
                 continue     # a rejection of the mixed-kind call (L2Reg adds the complex bias into a real buffer and raises) is not a wrong answer
-            if np.shape(got) != np.shape(exp) or not np.allclose(got, exp, atol=1e-12):
+            if np.shape(got) != np.shape(exp) or not core.allclose(got, exp, atol=1e-12):
                 res.append((["C11"], "value", "%s (%s) on a real input: got %s, minimiser %s" % (name, wrap, np.asarray(got).ravel(), exp)))
     return res, n
 
